@@ -20,9 +20,11 @@ Three legs, all exhaustive inside the stated bounds, all on the real classes of 
      operations that respects each thread's program order (brute force over all such orders, executed on the
      reference model); no exception, no deadlock.
 (E2) merge_caches_deterministic: every permutation of the worker list x every insertion order inside each
-     worker cache, for every assignment of key sets to 2-3 workers, bounded / pre-filled targets, both order
-     directions, both conflict policies.  Oracle: the target ends in the same state for all permutations and
-     (first_wins) in the state the documented rule gives on the reference model.
+     worker cache, for every assignment of key sets to 0-3 workers (the degenerate cardinalities are part of the
+     space: an empty worker list, a lone worker, workers that are all empty), bounded / pre-filled targets, both
+     order directions, both conflict policies; worker caches plain or behind the lock wrapper.  Oracle: the target
+     ends in the same state for all permutations and (first_wins) in the state the documented rule gives on the
+     reference model -- the rule "keys in sorted key order" is a statement about every worker, also the only one.
 """
 from __future__ import annotations
 
@@ -1465,10 +1467,14 @@ def _mk_target(tcfg, clock=None):
 def _mk_worker_cache(kind, pairs):
     if kind == "DetLRU":
         c = lru_det_mod.DeterministicLRU(16)
-    else:
+    elif kind in ("LRUCache", "TSC(LRUCache)"):
         c = cache_mod.LRUCache(max_entries=16, ttl=0, time_fn=_const0)
+    else:
+        raise HarnessError("unknown worker cache %r" % kind)
     for k, v in pairs:
         c.put(k, v)
+    if kind == "TSC(LRUCache)":  # the documented shared-cache spelling, here as a per-worker isolate
+        c = cache_mod.ThreadSafeCache(c)
     return c
 
 
@@ -1515,26 +1521,36 @@ def merge_groups(thorough: bool) -> List[dict]:
                     continue
                 targets.append({"kind": kind, "cap": cap, "pre": pre})
     out = []
-    nworkers = (2, 3)
+    # number of workers: the degenerate cardinalities 0 (nothing to merge: the target stays as it is) and 1 (no other
+    # worker to conflict with -- the key order rule and the LRU bound of the target still apply) belong to "for every list
+    # of per-worker caches" just like 2 and 3; likewise the inputs in which every worker cache is empty.
+    nworkers = (0, 1, 2, 3)
     for nw in nworkers:
         for contents in itertools.product(subsets, repeat=nw):
             if nw == 3 and not thorough and max(len(c) for c in contents) > 2:
-                continue
-            if sum(len(c) for c in contents) == 0:
                 continue
             for t in targets:
                 if nw == 3 and not thorough and not (t["kind"] == "LRUCache" and t["cap"] in (1, 2) and not t["pre"]):
                     continue
                 if nw == 3 and thorough and (t["kind"] != "LRUCache" or len(t["pre"]) == 2):
                     continue
-                for vals in ("per-worker", "equal"):
-                    for order in ("asc", "desc"):
-                        for policy in ("first_wins", "assert_equal"):
-                            if policy == "assert_equal" and order == "desc" and not thorough:
-                                continue
-                            out.append({"kind": "merge", "target": t, "contents": [list(c) for c in contents],
-                                        "values": vals, "order": order, "policy": policy,
-                                        "worker_kind": "DetLRU" if (t["kind"] == "DetLRU") else "LRUCache"})
+                # worker caches: of the target's family; behind the lock wrapper too where the target is wrapped, and (few
+                # workers, thorough) for the plain LRUCache target
+                wkinds = ["DetLRU"] if t["kind"] == "DetLRU" else ["LRUCache"]
+                if t["kind"] == "TSC(LRUCache)" or (thorough and nw <= 2 and t["kind"] == "LRUCache"):
+                    wkinds.append("TSC(LRUCache)")
+                for wkind in wkinds:
+                    if nw == 0 and wkind != wkinds[0]:
+                        continue
+                    for vals in ("per-worker", "equal"):
+                        if nw == 0 and vals != "equal":
+                            continue  # no worker, no value
+                        for order in ("asc", "desc"):
+                            for policy in ("first_wins", "assert_equal"):
+                                if policy == "assert_equal" and order == "desc" and not thorough:
+                                    continue
+                                out.append({"kind": "merge", "target": t, "contents": [list(c) for c in contents],
+                                            "values": vals, "order": order, "policy": policy, "worker_kind": wkind})
     return out
 
 
@@ -1621,8 +1637,9 @@ def _merge_worker(chunk, st: Stats):
             st.violation(sig, what, c)
         nconf = len(set(itertools.chain.from_iterable(case["contents"]))) < sum(len(c) for c in case["contents"])
         st.distinct("outcomes", ("merge", case["policy"], exp[0], nconf, bool(res)))
-        if nconf or len(case["contents"]) > 1:
+        if nconf or len(case["contents"]) > 1 or any(len(c) > 1 for c in case["contents"]):
             st.add("nontrivial")
+        st.add("merge_groups_with_%d_workers" % len(case["contents"]))
         if st.n.get("merge_groups", 0) % 500 == 1:
             st.sample(case)
 
@@ -1648,7 +1665,9 @@ def run(run: Run) -> None:
                 "kept in the canonical state as near/far "
                 "(non-trivial = transition that changes the canonical state); E3b: per wrapper x program (2-3 threads x 1-2 ops), "
                 "every schedule with <= bound preemptions at lock and line granularity (non-trivial = execution with >= 1 preemption); "
-                "E2: per merge input, every permutation of the worker list x every insertion order (non-trivial = >1 worker or conflicting keys)")
+                "E2: per merge input (0-3 workers incl. the empty list, a lone worker and all-empty workers; worker caches plain or lock-wrapped), "
+                "every permutation of the worker list x every insertion order inside every worker "
+                "(non-trivial = >1 worker, conflicting keys, or a worker holding >= 2 keys)")
     run.notes["sched_selftest"] = sched.selftest()
 
     systems = e1_systems(run.thorough)
@@ -1684,7 +1703,8 @@ def run(run: Run) -> None:
     run.assume("what a zero-capacity TTL cache reports as 'evicted' (set() return / stats) is unspecified and not compared")
     run.assume("DedupeRing.discard(): after a discard only capacity / no-exception / disabled invariants are checked until the next clear()")
     run.assume("merge: worker order keys and key order keys are pairwise distinct (ties fall back to list order by design); worker caches are "
-               "large enough not to evict; under assert_equal only raise/no-raise and permutation-independence are compared")
+               "large enough not to evict; under assert_equal only raise/no-raise and permutation-independence are compared; "
+               "0 <= workers <= 3, <= 3 keys; an empty worker list / empty workers must leave the target as it was")
     run.assume("random long histories beyond the closure / real pools under jitter are not part of this check (sampling)")
 
 
